@@ -82,7 +82,7 @@ def _gen_message(rng, tier):
         level = 'L'
     if rng.random() < 0.5:
         kw['boost_error'] = False
-    flavour = rng.weighted([('numeric', 16), ('alphanumeric', 16), ('ascii', 12), ('latin1', 8), ('bytes', 10), ('runs', 12),
+    flavour = rng.weighted([('numeric', 16), ('alphanumeric', 16), ('ascii', 12), ('latin1', 8), ('bytes', 10), ('runs', 12), ('lookalike', 5),
                             ('kanji', 8), ('hanzi', 5), ('utf8', 8), ('sjis_mixed', 4), ('mixed_tail', 4), ('int', 6)])
     mode = {'numeric': 'numeric', 'alphanumeric': 'alphanumeric', 'kanji': 'kanji', 'hanzi': 'hanzi', 'int': 'numeric'}.get(flavour, 'byte')
     version = rng.randint(1, maxv) if rng.random() < 0.8 else rng.randint(1, min(maxv, 4))
@@ -106,6 +106,10 @@ def _gen_message(rng, tier):
             content = -content
     elif flavour in ('numeric', 'alphanumeric', 'kanji', 'hanzi'):
         content = gen.text(rng, mode, n)
+    elif flavour == 'lookalike':
+        content = gen.kanji_lookalike(rng, max(1, min(n, 400) // 2))
+        if rng.random() < 0.6:
+            content = content.decode('latin1')
     elif flavour == 'runs':
         content = gen.runs_text(rng, n)
         if rng.random() < 0.3:
